@@ -21,7 +21,7 @@ META = {
     "shards": {"quick": 8, "thorough": 4},
     "bounds": {
         "quick": "adder w=1..16 x 4 carry options, mux w=1..16, popcount w=1..16, half/full adder: all input vectors; clog2: all 1<=n<=2^64 by AST->z3 unrolling (65 iterations + unwinding assertion); int_to_bin/bin_to_int round trip by CrossHair for w<=4 (reported Confirmed/Not confirmed; not-confirmed is reported as inconclusive, never as success) and by AST-level bounded check for w<=10",
-        "thorough": "adder w=1..48, mux w=1..40, popcount w=1..40; clog2 n<=2^256; round trip w<=6 CrossHair",
+        "thorough": "adder w=1..48, mux w=1..40, popcount w=1..40; clog2 n<=2^128; round trip w<=6 CrossHair",
     },
     "outside": ["widths above the bound", "int_to_bin for i >= 2^w (result longer than w, documented behaviour of zfill)"],
     "assumptions": ["sem.py gate table", "z3 bit-vector theory", "the AST->z3 translator for clog2 handles exactly: assignment, augmented <<= and +=, while, if/raise, return (anything else aborts the check as harness error)"],
@@ -270,7 +270,7 @@ def sym_exec_clog2(src, N, unroll):
 
 
 def check_clog2(ctx, utils):
-    W = 64 if ctx.quick else 256
+    W = 64 if ctx.quick else 128
     src = inspect.getsource(utils.clog2)
     n = z3.Int("n")
     boundary_sweep(ctx, utils, 300)
